@@ -136,7 +136,7 @@ def is_zero_word(E, w):
 
 # ---- scenario: write, call out (possibly re-entered), read back ----------------------------------------------------
 
-def run_reentrancy(transient):
+def run_reentrancy(transient, readonly_call=False):
     def run(E):
         rt, rtref = setup(E)
         sysv = okv(E, call(E, 'load', [rtref]), 'load failed')
@@ -153,6 +153,8 @@ def run_reentrancy(transient):
             env['root_at_send'] = rt2.funcs['state_root']
             env['commits_at_send'] = rt2.commits
             ch = E2.ctx.choose(4, nm + '.outcome')
+            if readonly_call and ch == 1:
+                raise PathEnd('early', 'a read-only nested call cannot commit another state')
             if ch == 0:
                 env['inner'] = None              # call succeeded, this contract was not re-entered (or left unchanged)
                 return ('ok', None)
@@ -172,7 +174,7 @@ def run_reentrancy(transient):
         flags = E.materialize('fvm_shared::sys::SendFlags', 'flags') if False else None
         fn = sysfn(E, 'send_raw')
         r = E.run_function(fn, [sref(), RefV(Cell(to, 'to'), ()), method, none('Option<IpldBlock>'), BigV(0), none('Option<u64>'),
-                                E.do_call(None, 'SendFlags::empty', [], 'SendFlags')])
+                                StructV('SendFlags', {0: IntV(1 if readonly_call else 0, 'u64')})])
         env['send_result'] = r
         if not is_ok(r):
             return r, rt
@@ -411,6 +413,9 @@ def build(tier):
                         bounds='one instruction + flush; arbitrary state; the transfer may succeed, fail or hit a syscall error; CUT: operand -> address conversion (beneficiary = arbitrary address)', max_paths=20000))
     O.append(Obligation('evm.System::resurrect', run_resurrect('resurrect'), props_resurrect('resurrect'),
                         descr='resurrect succeeds exactly for a dead contract and yields an empty one', bounds='one call; arbitrary stored state', max_paths=5000, expect_ok=False))
+    O.append(Obligation('evm.System: write, STATICCALL out, read back [storage]', run_reentrancy(False, True), props_reentrancy,
+                        descr='a pending write is flushed before a read-only nested call too (a re-entrant read-only activation sees it); the own view is kept afterwards',
+                        bounds='one load + one write + one read-only call + one read; arbitrary stored state; call outcome: ok / exit code / syscall error', max_paths=200000))
     for tr in (False, True):
         O.append(Obligation('evm.System: write, call out, read back [%s]' % ('transient storage' if tr else 'storage'), run_reentrancy(tr), props_reentrancy,
                             descr='pending writes are flushed and visible at call time; after a successful call the view is what a re-entrant activation left; after a failed call or none the own view; read-only activations cannot flush writes',
